@@ -18,7 +18,7 @@ START_CLASH_WITNESSES = [
     "canon ll N00Opt N00:[5,N00,6],7",
     "canon ll N00Group N00:(5|6,N00),7",
 ]
-START_CLASH_TEXT = ("F19 start symbol is not in variable_names: `%start N00List %% N00: {\"t5\" N00 \"t6\"};` "
+START_CLASH_TEXT = ("F23 start symbol is not in variable_names: `%start N00List %% N00: {\"t5\" N00 \"t6\"};` "
                     "is accepted and the undefined start symbol N00List becomes the generated repetition helper "
                     "(site canonicalization.rs::variable_names / eliminate_single_rep)")
 
@@ -49,7 +49,7 @@ def extra(ctx, state):
     odd = [(c, r, m, o) for c, r, m, o in zip(START_CLASH_WITNESSES, reps, mods, orc) if r != m]
     state["coverage_extra"] = {"start_clash_witnesses": len(START_CLASH_WITNESSES), "start_clash_reproduced": len(hits)}
     if hits:
-        ctx.known.append(f"id=F19 {START_CLASH_TEXT} (reproduced on {len(hits)} witness(es), e.g. `{hits[0]}`; "
+        ctx.known.append(f"id=F23 {START_CLASH_TEXT} (reproduced on {len(hits)} witness(es), e.g. `{hits[0]}`; "
                          f"theorem canon_start_clash_counterexample)")
     if odd:
         c, r, m, o = odd[0]
@@ -73,15 +73,15 @@ SPEC = {
     "assumptions": [
         "the Lean functions of Model/Canon.lean mirror transform_productions and generate_name; agreement (production list with names and attributes) is observed on the explored grammars",
         "terminals are `\"t<n>\"` string literals in scanner state INITIAL; a terminal is one natural number in the model; user types, member names and lookahead expressions do not occur",
-        "the theorems' hypothesis `st ∈ variableNames E` (the start symbol is defined or used) is necessary: without it the property fails on the real code (finding F19, witnesses checked on every run)",
+        "the theorems' hypothesis `st ∈ variableNames E` (the start symbol is defined or used) is necessary: without it the property fails on the real code (finding F23, witnesses checked on every run)",
     ],
 }
 
 CLAIM = {
     "category": "proof",
-    "text": "Lean theorems about the model `canon` (a step-by-step mirror of transform_productions: extract_options, then the loop separate_alternatives ; eliminate_repetitions (LL and LALR variants) ; eliminate_options ; eliminate_groups, generate_name with its numeric-suffix rule, finalize): every step preserves YieldE for all factor strings that do not mention the new helper (step_preserves_lang family), canon_preserves_lang (for ALL EBNF grammars and both grammar types, whenever the start symbol is defined or used), generate_name_not_mem, generate_name_total (the |exclusions|+1 candidates always contain a free name), helper_fresh. Termination of the transformation loops is not proved (the model takes fuel; `fuel-exhausted` was never observed). Tied to the code by exact differential runs through the real PAR front end; every implementation reply is also judged by the oracle (member on all strings ≤ n, helper-name clash detector).",
+    "text": "Lean theorems about the model `canon` (a step-by-step mirror of transform_productions: extract_options, then the loop separate_alternatives ; eliminate_repetitions (LL and LALR variants) ; eliminate_options ; eliminate_groups, generate_name with its numeric-suffix rule, finalize): every step preserves YieldE for all factor strings that do not mention the new helper (step_preserves_lang family), canon_preserves_lang (for ALL EBNF grammars and both grammar types, whenever the start symbol is defined or used), canon_generate_name_not_mem, generate_name_total (the |exclusions|+1 candidates always contain a free name), helper_fresh. Termination of the transformation loops is not proved (the model takes fuel; `fuel-exhausted` was never observed). Tied to the code by exact differential runs through the real PAR front end; every implementation reply is also judged by the oracle (member on all strings ≤ n, helper-name clash detector).",
     "design_ref": "DESIGN.md §6 C09",
-    "note": "Trusted: Lean kernel, faithfulness of the hand-written model as observed by the differential run, harness (PAR rendering of the encoded grammar) and orchestrator. New finding F19 (start symbol missing from variable_names) is reproduced on its witnesses on every run and proved as canon_start_clash_counterexample.",
+    "note": "Trusted: Lean kernel, faithfulness of the hand-written model as observed by the differential run, harness (PAR rendering of the encoded grammar) and orchestrator. New finding F23 (start symbol missing from variable_names) is reproduced on its witnesses on every run and proved as canon_start_clash_counterexample.",
     "technique": "Lean 4 proof over hand-written model + differential correspondence check",
 }
 
